@@ -333,6 +333,14 @@ def _check(world: World, host: AppHost, conns: List[ConnInfo], T: float, out: Ou
                     if t_close is None or t_close > trigger + DELTA:
                         bad("idle-not-closed-on-shutdown", f"conn {info.index}: idle at the shutdown trigger "
                             f"({trigger:.6f}) but closed at {t_close}", **key)
+                elif _busy_at(busy, trigger) and idle_start > trigger + EPS and kind == "response" \
+                        and (t_loss is None or t_loss > idle_start + DELTA):
+                    # shutdown began while a request was in progress: once that request is done the
+                    # connection has nothing in progress and shutdown has begun - closed at once
+                    if t_close is None or t_close > idle_start + DELTA:
+                        bad("idle-not-closed-on-shutdown", f"conn {info.index}: shutdown began at {trigger:.6f} "
+                            f"during a request; the connection became idle at {idle_start:.6f} but was closed "
+                            f"at {t_close}", became_idle_after_trigger=True, **key)
         # ---- rule D: released promptly after peer loss or the server's own close
         t_dead = None
         for t in (t_loss, t_close):
